@@ -42,6 +42,8 @@ def mk(spec):
 
 def gen_msg(rng):
     t = pick(rng, (0, 0, 1, 10, 96, 480, 1000))
+    if rng.random() < 0.04:
+        t = float(t)        # a float that equals an integer (makes save raise until it is repaired)
     r = rng.random()
     if r < 0.6:
         return ['note', rng.randrange(128), t]
@@ -125,7 +127,7 @@ class History(BaseEngine):
                                    ('track_iadd', 0.7), ('track_clear', 0.4)))
                 ops.append(['edit', e, rng.randrange(1000), rng.randrange(1000),
                             [gen_msg(rng) for _ in range(rng.randint(1, 3))],
-                            pick(rng, (0, 1, 7, 480, 1000, 96)), pick(rng, (0, 1, 2, 1, 1))])
+                            pick(rng, (0, 1, 10, 480, 1000, 96)), pick(rng, (0, 1, 2, 1, 1))])
         plan = {'prop': prop, 'init': init, 'type': pick(rng, (0, 1, 1, 1, 2)), 'tpb': pick(rng, (1, 96, 480)),
                 'tracks': tracks, 'ops': ops}
         if idx % 400 == 5:
@@ -170,8 +172,8 @@ class History(BaseEngine):
         if plan.get('bulk') and tracks:
             tracks[0].extend(Message('note_on', note=k % 128, time=k % 3) for k in range(plan['bulk']))
         if plan['init'] == 'loaded':
-            src = MidiFile(type=1, ticks_per_beat=plan['tpb'], tracks=[MidiTrack(m for m in t if not
-                           (not m.is_meta and m.type == 'clock')) for t in tracks])
+            src = MidiFile(type=1, ticks_per_beat=plan['tpb'], tracks=[MidiTrack(
+                m.copy(time=int(m.time)) for m in t if not (not m.is_meta and m.type == 'clock')) for t in tracks])
             disk = simdisk.SimDisk()
             src.save(file=disk.handle('src.mid', 'wb'))
             a = MidiFile(file=disk.handle('src.mid', 'rb'))
@@ -199,8 +201,7 @@ class History(BaseEngine):
                 mt = mf.merged_track
                 out = [repr(m) for m in mt]
                 for m in mt:
-                    if not m.is_meta:
-                        m.time = 7777
+                    m.time = 7777       # every message of the returned track, the final end_of_track included
                 mt.append(Message('note_on', note=arg, time=arg))
                 if len(mt) > 2:
                     del mt[0]
@@ -467,6 +468,17 @@ class History(BaseEngine):
                 continue
             if susp:
                 susp['others'] = susp.get('others', 0) + 1
+                other = MidiFile(type=1, ticks_per_beat=24, tracks=[MidiTrack([
+                    MetaMessage('set_tempo', tempo=123456, time=0), Message('note_on', note=arg % 128, time=5),
+                    Message('note_on', note=1, time=11)])])
+                o1 = self._observe(other, 'length', 0)
+                o2 = self._observe(other, 'iter', 0)
+                exp_len = repr(16 * 123456 * 1e-6 / 24)
+                if o1[0] != 'ok' or o2[0] != 'ok' or len(o2[1]) != 4 or abs(float(o1[1]) - 16 * 0.123456 / 24) > 1e-9:
+                    raise Violation('bystander-file-wrong', f'an unrelated file measured while another observation was '
+                                                            f'suspended gave {o1!r} / {self._short(o2)} (expected length '
+                                                            f'{exp_len})')
+                stats['fault:other_file_observed_while_suspended'] += 1
             before = self._contents(a)
             res_a = self._observe(a, kind, arg)
             res_f = self._observe(self._fresh(model), kind, arg)
@@ -477,6 +489,27 @@ class History(BaseEngine):
             if before != mod:
                 raise Violation('contents-diverged', f'after the edits the file holds {before!r}, the plain model '
                                                      f'{mod!r}')
+            if kind in ('iter', 'length') and res_a[0] == 'ok' and model['type'] != 2:
+                # independent of any second mido object: exact tempo-map model of the current contents
+                from .playback import ENGINE as PB
+                mtracks = [MidiTrack(m.copy() for m in t) for t in model['tracks']]
+                try:
+                    ref = PB._model({'tpb': model['tpb']}, mtracks)
+                except Exception:
+                    ref = None
+                if ref is not None and all(isinstance(m.time, int) and m.time >= 0 for t in mtracks for m in t):
+                    total = float(ref[-1][2])
+                    if kind == 'length':
+                        got_len = float(res_a[1])
+                        if abs(got_len - total) > 1e-9 * max(1.0, total) + 1e-12:
+                            raise Violation('stale:length-vs-contents', f'length is {got_len!r}; the tempo-map integral of '
+                                                                        f'the current contents is {total!r} (edits since the '
+                                                                        f'last observation: {edits_since})')
+                    else:
+                        if len(res_a[1]) != len(ref):
+                            raise Violation('stale:iter-vs-contents', f'iteration yields {len(res_a[1])} messages, the '
+                                                                      f'current contents merge to {len(ref)}')
+                    stats['checked_against_independent_model'] += 1
             if kind == 'save' and res_a[0] == 'ok':
                 # independent reading of what was written: must be the current contents
                 try:
